@@ -251,6 +251,12 @@ def tops(L, sort, f):
 
 
 # ---- the check's own measures -----------------------------------------------------------------
+def _as_bool(b, t):
+    """t if it is Boolean, else an equality over it (so that it can be put below a connective)"""
+    m = b.env.formula_manager
+    return t if t.get_type().is_bool_type() else m.Equals(t, t)
+
+
 def dag_nodes(f):
     """number of distinct nodes reachable from f (iterative, independent of pySMT walkers)"""
     seen = set()
@@ -489,6 +495,33 @@ def case_ops(opname, family, n, ops, res, part, profile, deep):
                 res.outcome(lab + ":" + type(exc).__name__)
                 bad("exception", "construct", "%s on top raised %s: %s" % (tname, type(exc).__name__, str(exc)[:100]),
                     {"top": tname})
+        # ---- a refused (ill-typed) construction over the closed formula, caught by the caller, must not make the
+        # ---- next construction on top of the term pay for the whole DAG again (the type checker's memo survives)
+        m_ = b.env.formula_manager
+        for rname, refused in (("Equals(F,F)", lambda: m_.Equals(b.F, b.F)), ("Plus(F,F)", lambda: m_.Plus(b.F, b.F)),
+                               ("BVAdd(F,F)", lambda: m_.BVAdd(b.F, b.F)), ("LT(F,1)", lambda: m_.LT(b.F, m_.Int(1)))):
+            try:
+                refused()
+                res.outcome("construct-refused:accepted")
+            except RecursionError as e:
+                res.outcome("construct-refused:recursion")
+                bad("recursion", "construct", "the refused construction %s raised RecursionError [%s]" % (rname, _tail(e)),
+                    {"top": rname})
+                continue
+            except Exception:
+                res.outcome("construct-refused:raised")
+            for tname, ctor in tops(b.L, b.sort, b.f)[:2]:
+                res.count("evaluations")
+                # a new node on top (the earlier tops exist already): wrap it once more so that it is new
+                cnt, exc, tb = measure(lambda: m_.Not(m_.Iff(_as_bool(b, ctor()), m_.Symbol("after_%s" % rname))), N, False)
+                if exc is None:
+                    res.outcome("construct-after-refusal:ok")
+                    if cnt["cb"] > 12 or cnt["cb_max"] > 1:
+                        bad("lin", "construct", "%s on top of the term after the refused %s: %d type-checker callbacks for "
+                            "at most 6 new nodes (%d distinct nodes in the term)" % (tname, rname, cnt["cb"], N),
+                            {"top": tname, "after": rname})
+                else:
+                    res.outcome("construct-after-refusal:" + type(exc).__name__)
         # ---- operations
         dirty = False
         for op in ops:
